@@ -431,6 +431,8 @@ def main(argv=None):
             known_seen.setdefault(ent["id"], {"ent": ent, "n": 0})
             known_seen[ent["id"]]["n"] += 1
             continue
+        if hasattr(mod, "replay_case"):
+            small = mod.replay_case(small, recs[0])
         path = write_replay(pid, small, recs[0], note=f"bucket={b}; minimised with {evals} evaluations; occurrences={agg['failure_counts'].get(b)}")
         violations.append({"bucket": b, "replay": path, "rec": recs[0]})
 
